@@ -92,6 +92,8 @@ def replay(rec: dict) -> bool:
     with lean_lock():
         from harness.lib.core import lake_build
         lake_build([EXE])
+    if rec["replay"].get("probe") == "from_config":
+        return not rig.from_config_probe()["problems"]
     return not _fails(rec["replay"]["case"])
 
 
@@ -115,6 +117,19 @@ def run(ctx: Ctx):
                    f"only at run time: {sorted(runtime - listed)}; only in the source: {sorted(listed - dead - runtime)}")
         ctx.cov["interface_inventory"] = {"listed": len(listed), "in_modules_that_cannot_be_imported": sorted(f"{f}:{c}.{m}" for c, f, m in dead),
                                           "dead_modules": dict(rig._DEAD_MODULES)}
+    try:
+        fc = rig.from_config_probe()
+        ctx.cov["from_config_probe"] = fc
+        ctx.oblige("PrimaiteGame.from_config puts every wireless interface on its network's AirSpace and registers every link; "
+                   "PrimaiteGame.pre_timestep zeroes every load (wireless scenario files of tests/assets)", "correspondence",
+                   fc["files"] > 0 and not fc["problems"], "; ".join(fc["problems"]) or f"{fc['files']} files")
+        if fc["problems"]:
+            # a concrete failing input: the scenario file itself, through the public construction path
+            ctx.violation({"kind": "load-out-of-reach-of-the-tick-reset", "medium": "from_config"},
+                          f"PrimaiteGame.from_config({fc['problems'][0].split(':')[0]}): {fc['problems'][0]}",
+                          {"probe": "from_config", "problems": fc["problems"][:6]})
+    except Exception as e:
+        ctx.oblige("from_config probe runs", "correspondence", False, f"{type(e).__name__}: {e}")
     ctx.cov["rule"] = ("case = (topology in {two hosts, 2-4 hosts on a switch, two switches with a trunk, hosts behind a router, hosts behind "
                        "2-3 wireless routers on one or two frequencies}, per-link bandwidth / per-frequency capacity from below one frame to "
                        "100 Mbit (wireless: optionally two frequency names of different capacity on one hz), op sequence of ping / arp / raw "
